@@ -368,7 +368,12 @@ class ExecMixin:
         if isinstance(x, Loc) and x.arrlen is not None:
             self.oblige(st, fr, 'safety.index', 'array', And(idx >= 0, idx < x.arrlen), site)
             st.assume(And(idx >= 0, idx < x.arrlen))
-            if self.K(x.t) == 'struct': raise Unsupported('array of structs')
+            if self.K(x.t) == 'struct':
+                # elements of an allocated array of structs are addressed like elements of a slice over that array (contents unconstrained)
+                if not (x.key.startswith('mem:') and len(x.idx) == 1): raise Unsupported('array of structs inside a struct')
+                r = self.elemref(x.t)(x.idx[0], self.at(IntVal(0), idx))
+                st.assume(r > 0)
+                return r
             return Loc(x.key, x.idx + (idx,), x.t)
         raise Unsupported('IndexAddr on %r' % (x,))
 
